@@ -8,7 +8,7 @@ That results are *equal* across histories is NOT decided.
 """
 import ast
 
-from ..model import AnalysisError, src, callee_name, dotted, walk_local, calls_in, FUNC, names_in
+from ..model import AnalysisError, src, callee_name, dotted, walk_local, calls_in, FUNC, names_in, pos
 from ..flow import atoms_at, path_conditions, split_conj, Sem
 from ..callgraph import CallGraph
 from .. import fresh, effects
@@ -176,7 +176,7 @@ def check_memo(ctx, repo, cg, rid):
                             other = next(s for s in sides if dotted(s) != f"self.{attr}")
                             if isinstance(other, ast.Name):
                                 d = [a for a in walk_local(call.node) if isinstance(a, ast.Assign) and any(isinstance(x, ast.Name) and x.id == other.id for x in a.targets)]
-                                if len(d) == 1 and dotted(d[0].value) == f"self.{attr}" and d[0].lineno < memo_calls[0].lineno:
+                                if len(d) == 1 and dotted(d[0].value) == f"self.{attr}" and pos(d[0]) < pos(memo_calls[0]):
                                     guard = True
             ctx.ob(rid, fq, f"the memoised parse's write to self.{attr} ({kind}) cannot be skipped by a cache hit (memo store guarded by `self.{attr} == <value before the parse>`)", guard, node=node,
                    construct=f"memoised parser writes self.{attr}",
@@ -288,7 +288,7 @@ def check_dict_literal(ctx, repo, rid):
         ctx.instance(rid, kr.fq, "dictionary literal")
         st = b._parent
         dvar = st.targets[0].id if isinstance(st, ast.Assign) and isinstance(st.targets[0], ast.Name) else None
-        uses = [n for n in walk_local(kr.node) if isinstance(n, ast.Name) and n.id == dvar and isinstance(n.ctx, ast.Load) and n.lineno >= st.lineno and n is not b.args[0]] if dvar else []
+        uses = [n for n in walk_local(kr.node) if isinstance(n, ast.Name) and n.id == dvar and isinstance(n.ctx, ast.Load) and pos(n) >= pos(st) and n is not b.args[0]] if dvar else []
         # every use after the construction is as the args of a KGCall whose function is a copying thunk
         # uses that cannot let the object out: inside an assert, or as argument of a type/size predicate
         def _harmless(u):
